@@ -226,6 +226,7 @@ def translate() -> tuple[str, dict]:
     K.FStr.module_funcs = {n.name: n for n in tree.body if isinstance(n, ast.FunctionDef)}
     K.SELF_PREDS.clear()
     K.SELF_PREDS.update(K.self_preds_of(cls))
+    K.init_state('keyvalues.py', tree, cls)
     f_ser = K._find_method(cls, 'serialise')
     f_in = K._find_method(cls, '_serialise')
     _braces, _self, paths = K.tr_serialise(f_ser, f_in)
@@ -240,11 +241,35 @@ def translate() -> tuple[str, dict]:
             return f'WChildren {K.coq_pieces(i[1])}'
         return 'WStore' if i[0] == 'store' else 'WMutate'
 
+    STATE_KINDS = {'guard': 'HGuard', 'mark': 'HMark', 'unmark': 'HUnmark', 'state': 'HState'}
+
     def coq_branch(b) -> str:
-        return '[' + '; '.join(coq_instr(i) for i in b) + ']'
+        # (statements that touch only state outside the tree neither write text nor store to the tree: gen_hprog has them)
+        return '[' + '; '.join(coq_instr(i) for i in b if i[0] not in STATE_KINDS) + ']'
+
+    def coq_hbranch(b) -> str:
+        return '[' + '; '.join({'write': 'HWrite', 'children': 'HChildren', **STATE_KINDS}[i[0]] for i in b
+                               if i[0] in STATE_KINDS or i[0] in ('write', 'children')) + ']'
+    # everything the writers (and the escaping they call) read or write that outlives the call
+    f_exp = K._find_method(cls, 'export')
+    sites = []
+    for fn in (f_ser, f_in, f_exp):
+        sites += [(ln, kind, f'{fn.name}: {nm}') for ln, kind, nm in
+                  K.state_refs(ast.Module(body=list(fn.body), type_ignores=[]), 'keyvalues.py', {(fn.args.posonlyargs + fn.args.args)[0].arg})]
+    xprog = K.tr_export_struct(f_exp)['prog']
+
+    def coq_xbranch(b) -> str:
+        return '[' + '; '.join(f'XYield {K.coq_pieces(i[1])}' if i[0] == 'write' else f'XChildren {K.coq_pieces(i[1])}'
+                               if i[0] == 'children' else 'XStore' if i[0] == 'store' else 'XMutate' for i in b) + ']'
+    ttree = ast.parse(src_text('tokenizer.py'))
+    K.init_state('tokenizer.py', ttree)
+    for fn in ttree.body:
+        if isinstance(fn, ast.FunctionDef) and fn.name in ('escape_text', '_escape_matcher'):
+            sites += [(ln, kind, f'{fn.name}: {nm}') for ln, kind, nm in
+                      K.state_refs(ast.Module(body=list(fn.body), type_ignores=[]), 'tokenizer.py', set())]
     L = ['(* GENERATED by translate/c01_kvaux.py from src/srctools/keyvalues.py. Do not edit. *)',
          'From Coq Require Import List NArith.',
-         'From SV Require Import KV.KvBase KV.KvWriter KV.KvFlagProg KV.KvWProg.', 'Import ListNotations.', 'Open Scope N_scope.', '',
+         'From SV Require Import KV.KvBase KV.KvWriter KV.KvFlagProg KV.KvWProg KV.KvWHist KV.KvXProg.', 'Import ListNotations.', 'Open Scope N_scope.', '',
          '(* the execution paths of Keyvalues.serialise(): what reaches the file / the returned string *)',
          'Definition gen_serpaths : list serpath := [', '  ' + ';\n  '.join(coq_serpath(p) for p in paths), '].', '',
          '(* _read_flag(flags, flag_val), executed symbolically *)',
@@ -253,9 +278,28 @@ def translate() -> tuple[str, dict]:
          'Definition gen_wprog : wprog := {|',
          f'  wp_root := {coq_branch(wprog["root"])};',
          f'  wp_block := {coq_branch(wprog["block"])};',
-         f'  wp_leaf := {coq_branch(wprog["leaf"])} |}}.', '']
+         f'  wp_leaf := {coq_branch(wprog["leaf"])} |}}.', '',
+         '(* _serialise over the state that outlives a call (KV/KvWHist.v): writes, child loop, guard / mark / unmark / other use of '
+         'module-level or class-level mutable objects *)',
+         'Definition gen_hprog : hprog := {|',
+         f'  hp_root := {coq_hbranch(wprog["root"])};',
+         f'  hp_block := {coq_hbranch(wprog["block"])};',
+         f'  hp_leaf := {coq_hbranch(wprog["leaf"])} |}}.', '',
+         '(* the deprecated generator export() as a program: per branch the statements in order (KV/KvXProg.v) *)',
+         'Definition gen_xprog : xprog := {|',
+         f'  xp_root := {coq_xbranch(xprog["root"])};',
+         f'  xp_block := {coq_xbranch(xprog["block"])};',
+         f'  xp_leaf := {coq_xbranch(xprog["leaf"])} |}}.', '',
+         '(* source lines of serialise / _serialise / export / escape_text / _escape_matcher that read (false) or write (true) '
+         'a module-level or class-level mutable object *)',
+         'Definition gen_writer_state_sites : list (N * bool) := ['
+         + '; '.join(f'({ln}, {"true" if kind == "write" else "false"})' for ln, kind, _ in sites) + '].', '']
     side = {'serialise_paths': paths, 'flagprog': flagprog,
-            'writer_program': {k: [i[0] for i in v] for k, v in wprog.items()}}
+            'writer_program': {k: [i[0] for i in v] for k, v in wprog.items()},
+            'export_program': {k: [i[0] for i in v] for k, v in xprog.items()},
+            'writer_state_sites': [list(x) for x in sites],
+            'module_level_mutable_objects': {m: {k: v for k, v in d.items()} for m, d in K.STATE['module'].items()},
+            'class_level_mutable_attributes': sorted(K.STATE['cls'])}
     return '\n'.join(L), side
 
 
